@@ -240,6 +240,8 @@ def _done(res, ses, counters, spec, faults):
     res.setdefault("nontrivial", res["verdict"] == "violation")
     counters.update(ses.totals)
     res["counters"] = counters
+    res["interleavings"] = sorted(ses.order_digests)
+    res["policies"] = ses.policies
     res["faults"] = faults
     sizes = caches.cache_sizes()
     res["probes"] = {"lru_at_capacity": 1 if sizes["divisions_lru"] >= (spec.get("cache_cap") or 10) else 0,
